@@ -102,7 +102,7 @@ let pr_schema tag qid (s : (n list * n list list) list) =
   List.iter (fun (c, vs) -> pr_str c; pr " %d" (List.length vs); List.iter pr_str vs) s;
   pr "\n"
 
-let writer_of = function "mem" | "memdb" | "mem2" -> WMem | "big" -> WBig | w -> failwith ("writer " ^ w)
+let writer_of = function "mem" | "memdb" | "mem2" | "memr" | "mem3" -> WMem | "big" | "bigr" -> WBig | w -> failwith ("writer " ^ w)
 
 let dp (lines : string list) =
   let datasets : (string, (n list * n list) list list) Hashtbl.t = Hashtbl.create 16 in
@@ -499,8 +499,10 @@ let sql (lines : string list) =
                   if next ac <> "ARGS" then failwith "expected ARGS";
                   let n = next_int ac in
                   let args = List.init n (fun _ -> match next ac with
-                    | "S" -> next_str ac
-                    | "I" -> bytes_of_string (string_of_int (next_int ac))
+                    | "S" | "NS" | "PS" -> next_str ac
+                    | "I" | "NI" -> bytes_of_string (string_of_int (next_int ac))
+                    | "BT" -> bytes_of_string "true"
+                    | "BF" -> bytes_of_string "false"
                     | _ -> failwith "bad arg") in
                   take (k - 1) (args :: acc) ls' in
             let (argsets, rest') = take k [] rest in
